@@ -5,6 +5,12 @@ from harness.drivers import linalg_drv
 def run(ck):
     q = ck.tier == "quick"
     progs = linalg_drv.programs(ck.seed, 120 if q else 2500)
+    # the Frobenius norm of arrays whose blocks have different element types (real + complex with fewer sectors),
+    # abelian and fermionic, against the denotation
+    from harness.drivers import algebra
+    from harness import gen
+    progs += algebra.mixed_programs(ck.seed, 24 if q else 500, tids=gen.Tids(50000), kinds=("abelian", "fermionic"),
+                                    norm_clause="C12.norm_equals_dense")
     ck.cov["rule"] = ("random symmetric matrices (abelian/fermionic, every dual pattern and charge, tall/wide/square/rank-deficient "
                       "blocks, missing blocks, pending signs): integer families (monomial / diagonal blocks) decided exactly by TLC, "
                       "float and fused matrices through logged tolerance observations; qr, svd, eigh, solve")
